@@ -289,7 +289,150 @@ def _chunk(chunk, seed):
     return res
 
 
+# ------------------------------------------------------------------ part B: several cycles with renewals in between
+T_RENEW, T_CYCLE2, T_CYCLE3 = 10 * DAY, 35 * DAY, 80 * DAY       # offsets from NOW
+
+
+def expired_at(policy, renew, now):
+    mode, override, cutoff_off = policy
+    if mode == "age":
+        return renew + (override if override is not None else NOMINAL) < now
+    return renew < NOW + cutoff_off
+
+
+def history_cases(tier):
+    """ordered lease tuples (slot order matters for containers) x non-empty subsets renewed between the cycles"""
+    out = []
+    sizes = (2,) if tier == "quick" else (2, 3)
+    labs = ["far", "below", "above", "recent"]
+    for policy in POLICIES:
+        for kind in ("immutable", "mutable"):
+            for n in sizes:
+                for leases in itertools.product(labs, repeat=n):
+                    for mask in range(1, 1 << n):
+                        out.append({"history": True, "enabled": True, "policy": policy, "sharetypes": ["mutable", "immutable"], "kind": kind,
+                                    "leases": list(leases), "renewed": [i for i in range(n) if mask >> i & 1]})
+    return out
+
+
+def run_histories(cfg, cases, seed=0):
+    """ONE real server; one share per case; cycle at NOW, the case's leases renewed at NOW+10 d, cycle at
+    NOW+35 d, cycle at NOW+80 d.  -> (harness violations, [[(sig, msg)] per case])"""
+    policy = cfg["policy"]
+    mode, override, cutoff_off = policy
+    bad, per_case = [], [[] for _ in cases]
+    old_offset, old_hook = boot.VT.offset, boot.VT.hook
+    with K.Scratch("c26h") as base:
+        try:
+            clk = Clock()
+            boot.VT.hook = None
+            boot.VT.offset = NOW - boot.R.seconds()
+            ss = K.make_server(os.path.join(base, "s"), clock=clk, expiration_enabled=True, expiration_mode=mode,
+                               expiration_override_lease_duration=override,
+                               expiration_cutoff_date=(NOW + cutoff_off) if cutoff_off is not None else None,
+                               expiration_sharetypes=("mutable", "immutable"))
+            model, paths, secs = [], [], []
+            for ci, case in enumerate(cases):
+                renews = [renewal_time(policy, lab) for lab in case["leases"]]
+                si = _h(b"hsi:%d:%d:" % (seed, ci) + repr(sorted(case.items())).encode())[:16]
+                data = _h(b"hdata:" + si)[:20]
+                path = os.path.join(ss.sharedir, storage_index_to_dir(si), "0")
+                secrets = [(_h(b"renew:%d:" % i + si), _h(b"cancel:%d:" % i + si)) for i in range(len(renews))]
+                clk.rightNow = float(renews[0])
+                if case["kind"] == "immutable":
+                    got, w = ss.allocate_buckets(si, secrets[0][0], secrets[0][1], [0], len(data))
+                    w[0].write(0, data)
+                    w[0].close()
+                else:
+                    ok, _ = ss.slot_testv_and_readv_and_writev(si, (_h(b"we"), secrets[0][0], secrets[0][1]), {0: ([], [(0, data)], None)}, [])
+                    assert ok
+                for i in range(1, len(renews)):
+                    clk.rightNow = float(renews[i])
+                    ss.add_lease(si, secrets[i][0], secrets[i][1])
+                model.append({"si": si, "data": data, "leases": dict(enumerate(renews)), "alive": True})
+                paths.append(path)
+                secs.append(secrets)
+            lc = ss.lease_checker
+
+            def cycle(number, now_off):
+                boot.VT.offset = NOW + now_off - boot.R.seconds()
+                clk.rightNow = float(NOW + now_off)
+                lc.start_slice()
+                if lc.state["last-cycle-finished"] != number:
+                    bad.append(("cycle-not-finished", "cycle %d did not finish in one start_slice(): %r" % (number, lc.state.get("last-cycle-finished"))))
+                    return False
+                for ci, (case, m, path) in enumerate(zip(cases, model, paths)):
+                    if not m["alive"]:
+                        continue
+                    exp = {i: expired_at(policy, r, NOW + now_off) for i, r in m["leases"].items()}
+                    want_deleted = all(exp.values())
+                    present = os.path.exists(path)
+                    desc = "cycle %d at now%+dd; mode=%s override=%s cutoff=%s kind=%s; leases created at %r, leases %r renewed at now+10d; per-lease expired now=%r" % (
+                        number + 1, now_off // DAY, mode, override and override // DAY, cutoff_off, case["kind"], case["leases"], case["renewed"], [exp[i] for i in sorted(exp)])
+                    if present and want_deleted:
+                        per_case[ci].append(("history:expired-share-not-deleted", "share still present although every lease is expired; " + desc))
+                    if not present and not want_deleted:
+                        per_case[ci].append(("history:deleted-with-unexpired-lease", "share was deleted although a lease is not expired; " + desc))
+                    if not present:
+                        m["alive"] = False
+                        continue
+                    if case["kind"] == "immutable":
+                        rd = ss.get_buckets(m["si"])[0].read(0, 100)
+                    else:
+                        rd = ss.slot_readv(m["si"], [0], [(0, 100)])[0][0]
+                    if rd != m["data"]:
+                        per_case[ci].append(("history:surviving-share-data-changed", desc))
+                    # the unexpired leases must all still be on the share with their renewal times
+                    have = sorted(int(li.get_grant_renew_time_time()) for li in get_share_file(path).get_leases())
+                    need = sorted(r for i, r in m["leases"].items() if not exp[i])
+                    if any(have.count(t) < need.count(t) for t in set(need)):
+                        per_case[ci].append(("history:unexpired-lease-lost", "share has renewal times %r, the unexpired leases are %r; %s" % ([t - NOW for t in have], [t - NOW for t in need], desc)))
+                return True
+            if not cycle(0, 0):
+                return bad, per_case
+            # renewals
+            clk.rightNow = float(NOW + T_RENEW)
+            boot.VT.offset = NOW + T_RENEW - boot.R.seconds()
+            for case, m, secrets in zip(cases, model, secs):
+                if not m["alive"]:
+                    continue
+                for i in case["renewed"]:
+                    ss.add_lease(m["si"], secrets[i][0], secrets[i][1])
+                    m["leases"][i] = NOW + T_RENEW
+            if cycle(1, T_CYCLE2):
+                cycle(2, T_CYCLE3)
+        except Exception as e:  # noqa
+            import traceback
+            bad.append(("history-raised:" + type(e).__name__, traceback.format_exc()[-600:]))
+        finally:
+            boot.VT.offset, boot.VT.hook = old_offset, old_hook
+            K.cancel_timers()
+    return bad, per_case
+
+
+def _hchunk(chunk, seed):
+    res = common.Result()
+    for group in chunk:
+        hbad, per_case = run_histories(group[0], group, seed)
+        res.count("crawl_cycles", 3)
+        for sig, msg in hbad:
+            res.violation(sig, group[0], msg)
+        for case, bad in zip(group, per_case):
+            res.count("evaluations")
+            res.count("histories")
+            if bad:
+                # confirm alone on its own server
+                hb2, pc2 = run_histories(case, [case], seed)
+                bad = pc2[0] + hb2
+            for sig, msg in bad:
+                res.violation(sig, case, msg)
+    return res
+
+
 def replay(case):
+    if case.get("history"):
+        hb, pc = run_histories(case, [case])
+        return hb + pc[0]
     return run_case(case)[0]
 
 
@@ -304,6 +447,16 @@ def run(tier, seed):
             groups.setdefault(_cfg_key(c) + (c["kind"],), []).append(c)
     items = [groups[k] for k in sorted(groups, key=repr)] + singles
     res = common.pmap(_chunk, items, (seed,))
+    # part B: histories over three cycles with renewals in between, all shares of one (policy, kind) on one server
+    hgroups = {}
+    for c in history_cases(tier):
+        hgroups.setdefault((tuple(c["policy"]), c["kind"]), []).append(c)
+    hitems = []
+    for k in sorted(hgroups, key=repr):
+        g = hgroups[k]
+        for i in range(0, len(g), 120):
+            hitems.append(g[i:i + 120])
+    res.merge(common.pmap(_hchunk, hitems, (seed,)))
     cov = {
         "evaluations": res.counts.get("evaluations", 0),
         "distinct_nontrivial": res.counts.get("nontrivial", 0),
@@ -312,7 +465,8 @@ def run(tier, seed):
             len(POLICIES), len(SHARETYPES), len(cases) // (2 * len(POLICIES) * len(SHARETYPES) * 2)),
         "crawl_cycles": res.counts.get("crawl_cycles", 0),
         "zero_lease_cases": res.counts.get("zero-lease:deleted", 0) + res.counts.get("zero-lease:kept", 0),
-        "rule": "every point of the grid (enabled x policy x sharetypes x share kind x multiset of <= %d leases over 5 renewal times around the policy threshold), one real crawl cycle each; non-trivial = expiry enabled for the share's type and >= 1 lease, so that the per-lease predicate decides" % (3 if tier == "quick" else 5),
+        "three_cycle_histories": res.counts.get("histories", 0),
+        "rule": "every point of the grid (enabled x policy x sharetypes x share kind x multiset of <= %d leases over 5 renewal times around the policy threshold), one real crawl cycle each; non-trivial = expiry enabled for the share's type and >= 1 lease, so that the per-lease predicate decides; plus three-cycle histories: every ordered tuple of %s leases over {far, below, above, recent} x every non-empty subset renewed at now+10 d, cycles at now, now+35 d, now+80 d, judged after each cycle (deleted iff all leases expired then; unexpired leases still recorded)" % (3 if tier == "quick" else 5, "2" if tier == "quick" else "2..3"),
     }
     return res, cov
 
